@@ -22,13 +22,22 @@ theorem foldl_op_init (o : NOp) (φ : Contrib A C → A) (l : List (Contrib A C)
     simp only [List.foldl_cons]
     rw [ih (O.op o x (φ b)), ih (O.op o (O.unit o) (φ b)), O.unit_left, O.assoc]
 
+/-- a sum is 0-dimensional iff every summand is. -/
+theorem scalar_foldl (φ : Contrib A C → A) (l : List (Contrib A C)) (x : A) :
+    O.scalar (l.foldl (fun a b => O.op .add a (φ b)) x) = (O.scalar x && l.all (fun b => O.scalar (φ b))) := by
+  induction l generalizing x with
+  | nil => simp
+  | cons b l ih =>
+    simp only [List.foldl_cons, List.all_cons]
+    rw [ih, O.scalar_add, Bool.and_assoc]
+
 /-- contextual equality of two chunk lists under `cat d`, plus equal emptiness. -/
-def LEq (d : Int) (l l' : List C) : Prop :=
+def LEq (d : Dim) (l l' : List C) : Prop :=
   (∀ pre post, O.cat d (pre ++ l ++ post) = O.cat d (pre ++ l' ++ post)) ∧ (l = [] ↔ l' = [])
 
-theorem LEq.refl (d : Int) (l : List C) : LEq O d l l := ⟨fun _ _ => rfl, Iff.rfl⟩
+theorem LEq.refl (d : Dim) (l : List C) : LEq O d l l := ⟨fun _ _ => rfl, Iff.rfl⟩
 
-theorem LEq.append_right {d : Int} {l l' : List C} (h : LEq O d l l') (m : List C) :
+theorem LEq.append_right {d : Dim} {l l' : List C} (h : LEq O d l l') (m : List C) :
     LEq O d (l ++ m) (l' ++ m) := by
   refine ⟨fun pre post => ?_, ?_⟩
   · have := h.1 pre (m ++ post)
@@ -36,11 +45,11 @@ theorem LEq.append_right {d : Int} {l l' : List C} (h : LEq O d l l') (m : List 
   · simp only [List.append_eq_nil_iff]
     exact ⟨fun ⟨a, b⟩ => ⟨h.2.mp a, b⟩, fun ⟨a, b⟩ => ⟨h.2.mpr a, b⟩⟩
 
-theorem LEq.cat_eq {d : Int} {l l' : List C} (h : LEq O d l l') : O.cat d l = O.cat d l' := by
+theorem LEq.cat_eq {d : Dim} {l l' : List C} (h : LEq O d l l') : O.cat d l = O.cat d l' := by
   simpa using h.1 [] []
 
 /-- the merge step on a list state: appending the concatenation of a non-empty source. -/
-theorem LEq.merge_step {d : Int} {l l' t t' : List C} (h : LEq O d l l') (ht : LEq O d t t') (hne : t ≠ []) :
+theorem LEq.merge_step {d : Dim} {l l' t t' : List C} (h : LEq O d l l') (ht : LEq O d t t') (hne : t ≠ []) :
     LEq O d (l ++ [O.cat d t]) (l' ++ t') := by
   have hne' : t' ≠ [] := fun e => hne (ht.2.mpr e)
   refine ⟨fun pre post => ?_, ?_⟩
@@ -56,6 +65,174 @@ theorem LEq.merge_step {d : Int} {l l' t t' : List C} (h : LEq O d l l') (ht : L
       simp only [List.append_eq_nil_iff] at e
       exact absurd e.2 hne'
 
+/-- compaction: a non-empty chunk list may be replaced by its concatenation. -/
+theorem LEq.compact {d : Dim} {t t' : List C} (ht : LEq O d t t') (hne : t ≠ []) :
+    LEq O d [O.cat d t] t' := by
+  simpa using LEq.merge_step O (LEq.refl O d []) ht hne
+
+/-! ## the facts of a well-formed row -/
+
+theorem numOf_mem {fs : List FieldPlumb} {f : String} {u m : NOp} {src : String}
+    (h : numOf fs f = some (u, m, src)) : ∃ du, FieldPlumb.num f u m src du ∈ fs := by
+  induction fs with
+  | nil => simp [numOf] at h
+  | cons x rest ih =>
+    cases x with
+    | num n u' m' s' du =>
+      simp only [numOf] at h
+      split at h
+      · rename_i hn
+        simp only [Option.some.injEq, Prod.mk.injEq] at h
+        obtain ⟨rfl, rfl, rfl⟩ := h
+        exact ⟨du, by simp [hn]⟩
+      · obtain ⟨du', hm⟩ := ih h
+        exact ⟨du', List.mem_cons_of_mem _ hm⟩
+    | _ =>
+      simp only [numOf] at h
+      obtain ⟨du', hm⟩ := ih h
+      exact ⟨du', List.mem_cons_of_mem _ hm⟩
+
+theorem lstOf_mem {fs : List FieldPlumb} {f src g : String} {d : Dim}
+    (h : lstOf fs f = some (src, g, d)) : ∃ rd raw, FieldPlumb.lst f src g d rd raw ∈ fs := by
+  induction fs with
+  | nil => simp [lstOf] at h
+  | cons x rest ih =>
+    cases x with
+    | lst n s' g' d' rd raw =>
+      simp only [lstOf] at h
+      split at h
+      · rename_i hn
+        simp only [Option.some.injEq, Prod.mk.injEq] at h
+        obtain ⟨rfl, rfl, rfl⟩ := h
+        exact ⟨rd, raw, by simp [hn]⟩
+      · obtain ⟨rd', raw', hm⟩ := ih h
+        exact ⟨rd', raw', List.mem_cons_of_mem _ hm⟩
+    | _ =>
+      simp only [lstOf] at h
+      obtain ⟨rd', raw', hm⟩ := ih h
+      exact ⟨rd', raw', List.mem_cons_of_mem _ hm⟩
+
+theorem adoptOf_mem {fs : List FieldPlumb} {f ug mg : String}
+    (h : adoptOf fs f = some (ug, mg)) : FieldPlumb.adopt f ug mg ∈ fs := by
+  induction fs with
+  | nil => simp [adoptOf] at h
+  | cons x rest ih =>
+    cases x with
+    | adopt n ug' mg' =>
+      simp only [adoptOf] at h
+      split at h
+      · rename_i hn
+        simp only [Option.some.injEq, Prod.mk.injEq] at h
+        obtain ⟨rfl, rfl⟩ := h
+        simp [hn]
+      · exact List.mem_cons_of_mem _ (ih h)
+    | _ =>
+      simp only [adoptOf] at h
+      exact List.mem_cons_of_mem _ (ih h)
+
+theorem derOf_mem {fs : List FieldPlumb} {f a b : String} {iu im ae : Bool}
+    (h : derOf fs f = some (a, b, iu, im, ae)) : FieldPlumb.der f a b iu im ae ∈ fs := by
+  induction fs with
+  | nil => simp [derOf] at h
+  | cons x rest ih =>
+    cases x with
+    | der n a' b' iu' im' ae' =>
+      simp only [derOf] at h
+      split at h
+      · rename_i hn
+        simp only [Option.some.injEq, Prod.mk.injEq] at h
+        obtain ⟨rfl, rfl, rfl, rfl, rfl⟩ := h
+        simp [hn]
+      · exact List.mem_cons_of_mem _ (ih h)
+    | _ =>
+      simp only [derOf] at h
+      exact List.mem_cons_of_mem _ (ih h)
+
+theorem cmpOf_mem {fs : List FieldPlumb} {f : String} {gs : List String} {d : Dim}
+    (h : cmpOf fs f = some (gs, d)) : FieldPlumb.cmp f gs d ∈ fs := by
+  induction fs with
+  | nil => simp [cmpOf] at h
+  | cons x rest ih =>
+    cases x with
+    | cmp n gs' d' =>
+      simp only [cmpOf] at h
+      split at h
+      · rename_i hn
+        simp only [Option.some.injEq, Prod.mk.injEq] at h
+        obtain ⟨rfl, rfl⟩ := h
+        simp [hn]
+      · exact List.mem_cons_of_mem _ (ih h)
+    | _ =>
+      simp only [cmpOf] at h
+      exact List.mem_cons_of_mem _ (ih h)
+
+section wf
+variable {fs : List FieldPlumb} (hall : fs.all (wfField fs) = true)
+include hall
+
+theorem wf_of_mem {x : FieldPlumb} (hx : x ∈ fs) : wfField fs x = true :=
+  List.all_eq_true.mp hall x hx
+
+theorem wf_num {f : String} {u m : NOp} {src : String}
+    (h : numOf fs f = some (u, m, src)) : u = m ∧ src = f := by
+  obtain ⟨du, hm⟩ := numOf_mem h
+  have := wf_of_mem hall hm
+  simp only [wfField, Bool.and_eq_true, beq_iff_eq] at this
+  exact ⟨this.1.1, this.1.2⟩
+
+theorem wf_lst {f src g : String} {d : Dim}
+    (h : lstOf fs f = some (src, g, d)) : src = f ∧ isLst fs g = true := by
+  obtain ⟨rd, raw, hm⟩ := lstOf_mem h
+  have := wf_of_mem hall hm
+  simp only [wfField, Bool.and_eq_true, beq_iff_eq] at this
+  exact ⟨this.1.1.1.1, this.1.1.1.2⟩
+
+theorem wf_adopt {f ug mg : String} (h : adoptOf fs f = some (ug, mg)) :
+    ug = mg ∧ numOf fs f = some (.add, .add, f) ∧ numOf fs ug = some (.add, .add, ug) := by
+  have := wf_of_mem hall (adoptOf_mem h)
+  simp only [wfField, Bool.and_eq_true, beq_iff_eq] at this
+  exact ⟨this.1.1, this.1.2, this.2⟩
+
+theorem wf_der {f a b : String} {iu im ae : Bool} (h : derOf fs f = some (a, b, iu, im, ae)) :
+    iu = true ∧ im = true ∧ isNum fs a = true ∧ isNum fs b = true := by
+  have := wf_of_mem hall (derOf_mem h)
+  simp only [wfField, Bool.and_eq_true] at this
+  exact ⟨this.1.1.1.1, this.1.1.1.2, this.1.1.2, this.1.2⟩
+
+theorem wf_cmp {f : String} {gs : List String} {d : Dim} (h : cmpOf fs f = some (gs, d)) :
+    isLst fs f = true ∧ d = dimOf fs f ∧ gs ≠ [] ∧ ∀ g ∈ gs, isLst fs g = true := by
+  have := wf_of_mem hall (cmpOf_mem h)
+  simp only [wfField, Bool.and_eq_true, beq_iff_eq, Bool.not_eq_true', List.isEmpty_eq_false_iff,
+    List.all_eq_true] at this
+  exact ⟨this.1.1.1, this.1.1.2, this.1.2, this.2⟩
+
+end wf
+
+theorem effDer_of_num {fs : List FieldPlumb} {f : String} (h : isNum fs f = true) : effDer fs f = none := by
+  simp only [isNum] at h
+  simp [effDer, h]
+
+theorem effDer_some {fs : List FieldPlumb} {f : String} {x} (h : effDer fs f = some x) :
+    numOf fs f = none ∧ derOf fs f = some x := by
+  simp only [effDer] at h
+  split at h
+  · simp at h
+  · rename_i hn
+    simp only [Bool.not_eq_true, Option.isSome_eq_false_iff, Option.isNone_iff_eq_none] at hn
+    exact ⟨hn, h⟩
+
+theorem hasAdopt_of {fs : List FieldPlumb} {f : String} {x} (h : adoptOf fs f = some x) : hasAdopt fs = true := by
+  obtain ⟨ug, mg⟩ := x
+  have := adoptOf_mem h
+  simp only [hasAdopt, List.any_eq_true]
+  exact ⟨_, this, rfl⟩
+
+theorem hasDer_of {fs : List FieldPlumb} {f : String} {x} (h : derOf fs f = some x) : hasDer fs = true := by
+  obtain ⟨a, b, iu, im, ae⟩ := x
+  have := derOf_mem h
+  simp only [hasDer, List.any_eq_true]
+  exact ⟨_, this, rfl⟩
+
 /-! ## the canonical state: a single instance fed `l` -/
 
 def canon (fs : List FieldPlumb) (l : List (Contrib A C)) : St A C where
@@ -64,33 +241,127 @@ def canon (fs : List FieldPlumb) (l : List (Contrib A C)) : St A C where
     | none => O.unit .add
   lst f := match lstOf fs f with | some _ => l.map (·.lst f) | none => []
 
+/-- the accumulated / constant states and the chunk lists of `s` represent the batches `l`. -/
+def RelB (fs : List FieldPlumb) (s : St A C) (l : List (Contrib A C)) : Prop :=
+  (∀ f, effDer fs f = none → s.num f = (canon O fs l).num f) ∧
+  (∀ f, LEq O (dimOf fs f) (s.lst f) ((canon O fs l).lst f))
+
+/-- the derived states are up to date (once there is a batch). -/
+def RelD (fs : List FieldPlumb) (s : St A C) (l : List (Contrib A C)) : Prop :=
+  ∀ f a b iu im ae, effDer fs f = some (a, b, iu, im, ae) → l ≠ [] → s.num f = O.sub (s.num a) (s.num b)
+
 /-- the state `s` represents the batches `l`. -/
 def Rel (fs : List FieldPlumb) (s : St A C) (l : List (Contrib A C)) : Prop :=
-  (∀ f, s.num f = (canon O fs l).num f) ∧ (∀ f, LEq O (dimOf fs f) (s.lst f) ((canon O fs l).lst f))
+  RelB O fs s l ∧ RelD O fs s l
+
+/-- shape coherence of a stream: every state's contribution has the same dimensionality (0-dim or not) in
+    every batch — the batches of one metric have one `n_output`.  (Only the adoption branch needs it.) -/
+def Coh (l : List (Contrib A C)) : Prop :=
+  ∀ b ∈ l, ∀ b' ∈ l, ∀ G, O.scalar (b.num G) = O.scalar (b'.num G)
+
+theorem Coh.sub {L l : List (Contrib A C)} (h : Coh O L) (hl : ∀ x ∈ l, x ∈ L) : Coh O l :=
+  fun b hb b' hb' G => h b (hl b hb) b' (hl b' hb') G
+
+/-- the hypothesis on the live batches under which a row's history is considered. -/
+def CohIf (fs : List FieldPlumb) (l : List (Contrib A C)) : Prop := hasAdopt fs = true → Coh O l
+
+theorem CohIf.sub {fs : List FieldPlumb} {L l : List (Contrib A C)} (h : CohIf O fs L) (hl : ∀ x ∈ l, x ∈ L) :
+    CohIf O fs l := fun ha => (h ha).sub O hl
 
 theorem rel_init (fs : List FieldPlumb) : Rel O fs (initSt O fs) [] := by
-  refine ⟨fun f => ?_, fun f => ?_⟩
+  refine ⟨⟨fun f _ => ?_, fun f => ?_⟩, fun f a b iu im ae _ hne => absurd rfl hne⟩
   · simp only [initSt, canon]
     rcases numOf fs f with _ | ⟨u, m, src⟩ <;> simp
   · simp only [initSt, canon]
     rcases lstOf fs f with _ | x <;> exact LEq.refl O _ _
 
-theorem rel_upd (fs : List FieldPlumb) (s : St A C) (l : List (Contrib A C)) (b : Contrib A C)
-    (h : Rel O fs s l) : Rel O fs (updSt O fs s b) (l ++ [b]) := by
-  refine ⟨fun f => ?_, fun f => ?_⟩
-  · have := h.1 f
-    simp only [updSt, canon] at this ⊢
-    rcases hf : numOf fs f with _ | ⟨u, m, src⟩ <;> simp only [hf] at this ⊢
+/-- **the adoption branch is taken only by an object without live batches** (then `0 + v = v`). -/
+theorem adopt_only_fresh {L l : List (Contrib A C)} {b' : Contrib A C} {G : String}
+    (hc : Coh O L) (hl : ∀ x ∈ l, x ∈ L) (hb' : b' ∈ L)
+    (hs : O.scalar (l.foldl (fun a b => O.op .add a (b.num G)) (O.unit .add)) = true)
+    (hv : O.scalar (b'.num G) = false) : l = [] := by
+  cases l with
+  | nil => rfl
+  | cons y l' =>
+    rw [scalar_foldl, O.scalar_unit] at hs
+    simp only [List.all_cons, Bool.true_and, Bool.and_eq_true] at hs
+    have := hc y (hl y (by simp)) b' hb' G
+    rw [hs.1, hv] at this
+    exact absurd this (by simp)
+
+/-- a non-0-dim sum has a non-0-dim summand. -/
+theorem exists_nonscalar {l : List (Contrib A C)} {G : String}
+    (hs : O.scalar (l.foldl (fun a b => O.op .add a (b.num G)) (O.unit .add)) = false) :
+    ∃ b' ∈ l, O.scalar (b'.num G) = false := by
+  rw [scalar_foldl, O.scalar_unit] at hs
+  simp only [Bool.true_and] at hs
+  obtain ⟨b', hb', hn⟩ := List.all_eq_false.mp hs
+  exact ⟨b', hb', by simpa using hn⟩
+
+/-- **update(), as the code computes it (adoption branch, row loop), is `op` on the carrier.** -/
+theorem updNum_eq (fs : List FieldPlumb) (hwf : fs.all (wfField fs) = true)
+    (s : St A C) (l : List (Contrib A C)) (b : Contrib A C)
+    (h : RelB O fs s l) (hc : CohIf O fs (l ++ [b])) (f : String) :
+    updNum O fs s b f = match numOf fs f with
+      | some (u, _, _) => O.op u (s.num f) (b.num f)
+      | none => s.num f := by
+  simp only [updNum]
+  rcases hf : numOf fs f with _ | ⟨u, m, src⟩
+  · rfl
+  · simp only
+    rcases ha : adoptOf fs f with _ | ⟨ug, mg⟩
+    · simp only
+      split
+      · exact O.row_fold u _ _
+      · rfl
+    · simp only
+      split
+      · rename_i hcond
+        simp only [Bool.and_eq_true] at hcond
+        obtain ⟨-, hnf, hng⟩ := wf_adopt hwf ha
+        rw [hf] at hnf
+        simp only [Option.some.injEq, Prod.mk.injEq] at hnf
+        obtain ⟨rfl, -, -⟩ := hnf
+        have hsg := h.1 ug (effDer_of_num (by simp [isNum, hng]))
+        simp only [canon, hng] at hsg
+        have hl : l = [] := by
+          apply adopt_only_fresh O (hc (hasAdopt_of ha)) (l := l) (b' := b) (G := ug)
+          · intro x hx; exact List.mem_append_left _ hx
+          · simp
+          · rw [← hsg]; exact hcond.1
+          · exact O.vec_scalar _ hcond.2
+        have hsf := h.1 f (effDer_of_num (by simp [isNum, hf]))
+        simp only [canon, hf, hl, List.foldl_nil] at hsf
+        rw [hsf, O.unit_left]
+      · rfl
+
+theorem rel_upd (fs : List FieldPlumb) (hwf : fs.all (wfField fs) = true)
+    (s : St A C) (l : List (Contrib A C)) (b : Contrib A C)
+    (h : Rel O fs s l) (hc : CohIf O fs (l ++ [b])) : Rel O fs (updSt O fs s b) (l ++ [b]) := by
+  have hnum : ∀ f, effDer fs f = none → (updSt O fs s b).num f = (canon O fs (l ++ [b])).num f := by
+    intro f hf
+    have := h.1.1 f hf
+    simp only [updSt, hf]
+    rw [updNum_eq O fs hwf s l b h.1 hc]
+    simp only [canon] at this ⊢
+    rcases hn : numOf fs f with _ | ⟨u, m, src⟩ <;> simp only [hn] at this ⊢
     · exact this
     · rw [List.foldl_append, this]; rfl
-  · have := h.2 f
+  refine ⟨⟨hnum, fun f => ?_⟩, ?_⟩
+  · have := h.1.2 f
     simp only [updSt, canon] at this ⊢
     rcases hf : lstOf fs f with _ | x <;> simp only [hf] at this ⊢
     · exact this
     · simpa using this.append_right O [b.lst f]
+  · intro f a b' iu im ae hf _
+    obtain ⟨-, hd⟩ := effDer_some hf
+    obtain ⟨rfl, rfl, hna, hnb⟩ := wf_der hwf hd
+    have ea := effDer_of_num hna
+    have eb := effDer_of_num hnb
+    simp only [updSt, hf, ea, eb]
 
 /-- emptiness of a list state of a represented object says whether any batch is alive. -/
-theorem rel_lst_empty (fs : List FieldPlumb) (s : St A C) (l : List (Contrib A C)) (h : Rel O fs s l)
+theorem rel_lst_empty (fs : List FieldPlumb) (s : St A C) (l : List (Contrib A C)) (h : RelB O fs s l)
     (g : String) (hg : isLst fs g = true) : s.lst g = [] ↔ l = [] := by
   have := (h.2 g).2
   simp only [canon] at this
@@ -99,65 +370,109 @@ theorem rel_lst_empty (fs : List FieldPlumb) (s : St A C) (l : List (Contrib A C
   simp only [hx] at this
   simpa using this
 
-theorem wf_num {fs fs' : List FieldPlumb} (hall : fs'.all (wfField fs) = true) {f : String} {u m : NOp} {src : String}
-    (h : numOf fs' f = some (u, m, src)) : u = m ∧ src = f := by
-  induction fs' with
-  | nil => simp [numOf] at h
-  | cons x rest ih =>
-    simp only [List.all_cons, Bool.and_eq_true] at hall
-    cases x with
-    | num n u' m' s' du =>
-      simp only [numOf] at h
-      split at h
-      · rename_i hn
-        simp only [Option.some.injEq, Prod.mk.injEq] at h
-        obtain ⟨rfl, rfl, rfl⟩ := h
-        have := hall.1
-        simp only [wfField, Bool.and_eq_true, beq_iff_eq] at this
-        exact ⟨this.1.1, this.1.2.trans hn⟩
-      · exact ih hall.2 h
-    | lst n s' g d rd raw =>
-      simp only [numOf] at h
-      exact ih hall.2 h
+theorem rel_compact (fs : List FieldPlumb) (hwf : fs.all (wfField fs) = true)
+    (s : St A C) (l : List (Contrib A C)) (h : RelB O fs s l) : RelB O fs (compact O fs s) l := by
+  refine ⟨h.1, fun f => ?_⟩
+  have h1 := h.2 f
+  simp only [compact]
+  rcases hf : cmpOf fs f with _ | ⟨gs, d⟩
+  · exact h1
+  · simp only
+    split
+    · rename_i hall
+      obtain ⟨hlf, rfl, hne, hgs⟩ := wf_cmp hwf hf
+      obtain ⟨g, gs', rfl⟩ := List.exists_cons_of_ne_nil hne
+      simp only [List.all_cons, Bool.and_eq_true, Bool.not_eq_true', List.isEmpty_eq_false_iff] at hall
+      have hl : l ≠ [] := fun e => hall.1 ((rel_lst_empty O fs s l h g (hgs g (by simp))).mpr e)
+      have hsf : s.lst f ≠ [] := fun e => hl ((rel_lst_empty O fs s l h f hlf).mp e)
+      exact LEq.compact O h1 hsf
+    · exact h1
 
-theorem wf_lst {fs fs' : List FieldPlumb} (hall : fs'.all (wfField fs) = true) {f src g : String} {d : Int}
-    (h : lstOf fs' f = some (src, g, d)) : src = f ∧ isLst fs g = true := by
-  induction fs' with
-  | nil => simp [lstOf] at h
-  | cons x rest ih =>
-    simp only [List.all_cons, Bool.and_eq_true] at hall
-    cases x with
-    | num n u' m' s' du =>
-      simp only [lstOf] at h
-      exact ih hall.2 h
-    | lst n s' g' d' rd raw =>
-      simp only [lstOf] at h
-      split at h
-      · rename_i hn
-        simp only [Option.some.injEq, Prod.mk.injEq] at h
-        obtain ⟨rfl, rfl, rfl⟩ := h
-        have := hall.1
-        simp only [wfField, Bool.and_eq_true, beq_iff_eq] at this
-        exact ⟨this.1.1.1.trans hn, this.1.1.2⟩
-      · exact ih hall.2 h
+/-- **merge_state(), as the code computes it (adoption branch), is `op` on the carrier.** -/
+theorem mrgNum_eq (fs : List FieldPlumb) (hwf : fs.all (wfField fs) = true)
+    (s t : St A C) (l lt : List (Contrib A C))
+    (h : RelB O fs s l) (ht : RelB O fs t lt) (hc : CohIf O fs (l ++ lt)) (f : String) :
+    mrgNum O fs s t f = match numOf fs f with
+      | some (_, m, src) => O.op m (s.num f) (t.num src)
+      | none => s.num f := by
+  simp only [mrgNum]
+  rcases hf : numOf fs f with _ | ⟨u, m, src⟩
+  · rfl
+  · simp only
+    rcases ha : adoptOf fs f with _ | ⟨ug, mg⟩
+    · rfl
+    · simp only
+      split
+      · rename_i hcond
+        simp only [Bool.and_eq_true] at hcond
+        obtain ⟨rfl, hnf, hng⟩ := wf_adopt hwf ha
+        rw [hf] at hnf
+        simp only [Option.some.injEq, Prod.mk.injEq] at hnf
+        obtain ⟨rfl, rfl, hsrc⟩ := hnf
+        rw [hsrc]
+        have eg : effDer fs ug = none := effDer_of_num (by simp [isNum, hng])
+        have hsg := h.1 ug eg
+        have htg := ht.1 ug eg
+        simp only [canon, hng] at hsg htg
+        have hvs := O.vec_scalar _ hcond.2
+        rw [htg] at hvs
+        obtain ⟨b', hb', hb's⟩ := exists_nonscalar O hvs
+        have hl : l = [] := by
+          apply adopt_only_fresh O (hc (hasAdopt_of ha)) (l := l) (b' := b') (G := ug)
+          · intro x hx; exact List.mem_append_left _ hx
+          · exact List.mem_append_right _ hb'
+          · rw [← hsg]; exact hcond.1
+          · exact hb's
+        have hsf := h.1 f (effDer_of_num (by simp [isNum, hf]))
+        simp only [canon, hf, hl, List.foldl_nil] at hsf
+        rw [hsf, O.unit_left]
+      · rfl
 
 theorem rel_mrg1 (fs : List FieldPlumb) (hwf : fs.all (wfField fs) = true)
     (s t : St A C) (l lt : List (Contrib A C))
-    (h : Rel O fs s l) (ht : Rel O fs t lt) : Rel O fs (mrg1 O fs s t) (l ++ lt) := by
-  refine ⟨fun f => ?_, fun f => ?_⟩
-  · have h1 := h.1 f
-    simp only [mrg1, canon] at h1 ⊢
+    (h : RelB O fs s l) (ht : RelB O fs t lt) (hc : CohIf O fs (l ++ lt)) : RelB O fs (mrg1 O fs s t) (l ++ lt) := by
+  refine ⟨fun f hfd => ?_, fun f => ?_⟩
+  · have h1 := h.1 f hfd
+    simp only [mrg1, mrgNum, canon] at h1 ⊢
     rcases hf : numOf fs f with _ | ⟨u, m, src⟩ <;> simp only [hf] at h1 ⊢
     · exact h1
     · obtain ⟨rfl, rfl⟩ := wf_num hwf hf
-      have h2 := ht.1 src
+      have h2 := ht.1 src (effDer_of_num (by simp [isNum, hf]))
       simp only [canon, hf] at h2
-      rw [List.foldl_append, h1, h2]
-      exact (foldl_op_init O u (fun b => b.num src) lt _).symm
+      have hadd : O.op u (s.num src) (t.num src) =
+          (l ++ lt).foldl (fun a b => O.op u a (b.num src)) (O.unit u) := by
+        rw [List.foldl_append, h1, h2]
+        exact (foldl_op_init O u (fun b => b.num src) lt _).symm
+      rcases ha : adoptOf fs src with _ | ⟨ug, mg⟩
+      · exact hadd
+      · simp only
+        split
+        · rename_i hcond
+          simp only [Bool.and_eq_true] at hcond
+          obtain ⟨rfl, hnf, hng⟩ := wf_adopt hwf ha
+          rw [hf] at hnf
+          simp only [Option.some.injEq, Prod.mk.injEq] at hnf
+          obtain ⟨rfl, -, -⟩ := hnf
+          have eg : effDer fs ug = none := effDer_of_num (by simp [isNum, hng])
+          have hsg := h.1 ug eg
+          have htg := ht.1 ug eg
+          simp only [canon, hng] at hsg htg
+          have hvs := O.vec_scalar _ hcond.2
+          rw [htg] at hvs
+          obtain ⟨b', hb', hb's⟩ := exists_nonscalar O hvs
+          have hl : l = [] := by
+            apply adopt_only_fresh O (hc (hasAdopt_of ha)) (l := l) (b' := b') (G := ug)
+            · intro x hx; exact List.mem_append_left _ hx
+            · exact List.mem_append_right _ hb'
+            · rw [← hsg]; exact hcond.1
+            · exact hb's
+          subst hl
+          simpa using h2
+        · exact hadd
   · have h1 := h.2 f
     simp only [mrg1, canon] at h1 ⊢
     rcases hf : lstOf fs f with _ | ⟨src, g, d⟩
-    · have hd : dimOf fs f = 0 := by simp [dimOf, hf]
+    · have hd : dimOf fs f = .lit 0 := by simp [dimOf, hf]
       simp only [hf, hd] at h1 ⊢
       exact h1
     · obtain ⟨rfl, hg⟩ := wf_lst hwf hf
@@ -173,43 +488,94 @@ theorem rel_mrg1 (fs : List FieldPlumb) (hwf : fs.all (wfField fs) = true)
       · have hne' : t.lst src ≠ [] := fun e => hne (hgd.mpr (hsrc.mp e))
         simpa [hne] using LEq.merge_step O h1 h2 hne'
 
-theorem rel_mrg (fs : List FieldPlumb) (hwf : fs.all (wfField fs) = true)
-    (ss : List (St A C)) (ls : List (Contrib A C)) (hss : RelL (Rel O fs) ss ls) :
-    ∀ (s : St A C) (l : List (Contrib A C)), Rel O fs s l → Rel O fs (ss.foldl (mrg1 O fs) s) (l ++ ls) := by
+/-- what a source of a merge is known to be: it represents its own live batches (if those are coherent). -/
+def RC (fs : List FieldPlumb) (s : St A C) (l : List (Contrib A C)) : Prop := CohIf O fs l → Rel O fs s l
+
+theorem rel_mrg_fold (fs : List FieldPlumb) (hwf : fs.all (wfField fs) = true)
+    (ss : List (St A C)) (ls : List (Contrib A C)) (hss : RelL (RC O fs) ss ls) :
+    ∀ (s : St A C) (l : List (Contrib A C)), RelB O fs s l → CohIf O fs (l ++ ls) →
+      RelB O fs (ss.foldl (mrg1 O fs) s) (l ++ ls) := by
   induction hss with
-  | nil => intro s l h; simpa using h
-  | cons h₁ _ ih =>
-    intro s l h
-    simp only [List.foldl_cons, ← List.append_assoc]
-    exact ih _ _ (rel_mrg1 O fs hwf _ _ _ _ h h₁)
+  | nil => intro s l h _; simpa using h
+  | @cons s₁ l₁ ss' ls' h₁ _ ih =>
+    intro s l h hc
+    simp only [List.foldl_cons, ← List.append_assoc] at hc ⊢
+    have h₁' : Rel O fs s₁ l₁ := h₁ (hc.sub O (by intro x hx; simp [hx]))
+    exact ih _ _ (rel_mrg1 O fs hwf _ _ _ _ h h₁'.1 (hc.sub O (fun x hx => List.mem_append_left _ hx))) hc
+
+theorem relL_nil_iff {R : St A C → List (Contrib A C) → Prop} {ls : List (Contrib A C)}
+    (h : RelL R [] ls) : ls = [] := by
+  cases h; rfl
+
+theorem rel_mrg (fs : List FieldPlumb) (hwf : fs.all (wfField fs) = true)
+    (ss : List (St A C)) (ls : List (Contrib A C)) (hss : RelL (RC O fs) ss ls)
+    (s : St A C) (l : List (Contrib A C)) (h : Rel O fs s l) (hc : CohIf O fs (l ++ ls)) :
+    Rel O fs (mrgSt O fs s ss) (l ++ ls) := by
+  have hB := rel_mrg_fold O fs hwf ss ls hss _ l (rel_compact O fs hwf s l h.1) hc
+  simp only [mrgSt]
+  generalize hs' : ss.foldl (mrg1 O fs) (compact O fs s) = s' at hB
+  refine ⟨⟨fun f hf => ?_, hB.2⟩, ?_⟩
+  · simp only [rederive, hf]
+    exact hB.1 f hf
+  · intro f a b iu im ae hf hne
+    obtain ⟨-, hd⟩ := effDer_some hf
+    obtain ⟨rfl, rfl, hna, hnb⟩ := wf_der hwf hd
+    have ea := effDer_of_num hna
+    have eb := effDer_of_num hnb
+    simp only [rederive, hf, ea, eb]
+    split
+    · rfl
+    · rename_i hcond
+      simp only [Bool.or_eq_true, Bool.not_eq_true', not_or, Bool.not_eq_true, Bool.not_eq_false,
+        List.isEmpty_iff] at hcond
+      obtain ⟨-, rfl⟩ := hcond
+      have : ls = [] := relL_nil_iff hss
+      subst this
+      simp only [List.foldl_nil] at hs'
+      subst hs'
+      simp only [List.append_nil] at hne
+      exact h.2 f a b true true ae hf hne
 
 variable {R : Type}
 
-/-- **every reachable state of a well-formed row represents the batches alive in its history.** -/
+/-- **every reachable state of a well-formed row represents the batches alive in its history**
+    (for a row with an adoption branch: when those batches are shape-coherent). -/
 theorem plumb_refines (P : ClassPlumb) (g : View A C → Except Err R) (hwf : WF P = true) :
-    ∀ (h : Hist (Contrib A C)) (s : St A C), eval (plumbImpl O P g) h = .ok s → Rel O P.fields s (flatten h) := by
+    ∀ (h : Hist (Contrib A C)) (s : St A C), eval (plumbImpl O P g) h = .ok s →
+      CohIf O P.fields (flatten h) → Rel O P.fields s (flatten h) := by
   have hall : P.fields.all (wfField P.fields) = true := by
     simp only [WF, Bool.and_eq_true] at hwf; exact hwf.2
-  apply refines_rel (plumbImpl O P g) (Rel O P.fields)
-  · exact rel_init O P.fields
-  · intro s l b s' hs hu
+  apply refines_rel (plumbImpl O P g) (RC O P.fields)
+  · exact fun _ => rel_init O P.fields
+  · intro s l b s' hs hu hc
     simp only [plumbImpl, Except.ok.injEq] at hu
     subst hu
-    exact rel_upd O P.fields s l b hs
-  · intro s l ss ls s' hs hss hm
+    exact rel_upd O P.fields hall s l b (hs (hc.sub O (by intro x hx; simp [hx]))) hc
+  · intro s l ss ls s' hs hss hm hc
     simp only [plumbImpl, Except.ok.injEq] at hm
     subst hm
-    exact rel_mrg O P.fields hall ss ls hss s l hs
+    exact rel_mrg O P.fields hall ss ls hss s l (hs (hc.sub O (by intro x hx; simp [hx]))) hc
 
-/-- two states representing the same batches look the same to `compute()`. -/
-theorem rel_view (fs : List FieldPlumb) (s s' : St A C) (l : List (Contrib A C))
-    (h : Rel O fs s l) (h' : Rel O fs s' l) : view O fs s = view O fs s' := by
-  have hn : s.num = s'.num := funext fun f => (h.1 f).trans (h'.1 f).symm
+/-- two states representing the same batches look the same to `compute()` (with a derived state: once there
+    is a batch). -/
+theorem rel_view (fs : List FieldPlumb) (hwf : fs.all (wfField fs) = true) (s s' : St A C) (l : List (Contrib A C))
+    (h : Rel O fs s l) (h' : Rel O fs s' l) (hd : hasDer fs = true → l ≠ []) : view O fs s = view O fs s' := by
+  have hn : s.num = s'.num := by
+    funext f
+    rcases hf : effDer fs f with _ | ⟨a, b, iu, im, ae⟩
+    · exact (h.1.1 f hf).trans (h'.1.1 f hf).symm
+    · obtain ⟨-, hdf⟩ := effDer_some hf
+      have hne := hd (hasDer_of hdf)
+      obtain ⟨-, -, hna, hnb⟩ := wf_der hwf hdf
+      have ea := effDer_of_num hna
+      have eb := effDer_of_num hnb
+      rw [h.2 f a b iu im ae hf hne, h'.2 f a b iu im ae hf hne,
+        (h.1.1 a ea).trans (h'.1.1 a ea).symm, (h.1.1 b eb).trans (h'.1.1 b eb).symm]
   have hc : ∀ f, O.cat (dimOf fs f) (s.lst f) = O.cat (dimOf fs f) (s'.lst f) := fun f =>
-    (h.2 f).cat_eq.trans (h'.2 f).cat_eq.symm
+    (h.1.2 f).cat_eq.trans (h'.1.2 f).cat_eq.symm
   have he : ∀ f, (s.lst f).isEmpty = (s'.lst f).isEmpty := fun f => by
-    have a := (h.2 f).2
-    have b := (h'.2 f).2
+    have a := (h.1.2 f).2
+    have b := (h'.1.2 f).2
     rw [Bool.eq_iff_iff]
     simp only [List.isEmpty_iff]
     exact a.trans b.symm
@@ -231,7 +597,7 @@ theorem plumb_total (P : ClassPlumb) (g : View A C → Except Err R) :
   | .merge h hs => by
     obtain ⟨s, e⟩ := plumb_total P g h
     obtain ⟨ss, es⟩ := plumb_totalList P g hs
-    refine ⟨ss.foldl (mrg1 O P.fields) s, ?_⟩
+    refine ⟨mrgSt O P.fields s ss, ?_⟩
     simp only [eval, e, es]; rfl
   | .reset h => by
     obtain ⟨s, e⟩ := plumb_total P g h
@@ -247,7 +613,34 @@ theorem plumb_totalList (P : ClassPlumb) (g : View A C → Except Err R) :
     simp only [evalList, e, es]; rfl
 end
 
-theorem foldl_upd_num (fs : List FieldPlumb) (l : List (Contrib A C)) (s : St A C) (f : String) :
+/-! ## rows of the basic normal form: update() is `op`, whatever the history -/
+
+theorem adoptOf_none_of {fs : List FieldPlumb} (h : hasAdopt fs = false) (f : String) : adoptOf fs f = none := by
+  rcases ha : adoptOf fs f with _ | x
+  · rfl
+  · rw [hasAdopt_of ha] at h; exact absurd h (by simp)
+
+theorem effDer_none_of {fs : List FieldPlumb} (h : hasDer fs = false) (f : String) : effDer fs f = none := by
+  rcases he : effDer fs f with _ | x
+  · rfl
+  · rw [hasDer_of (effDer_some he).2] at h; exact absurd h (by simp)
+
+theorem updSt_num_basic (fs : List FieldPlumb) (ha : hasAdopt fs = false) (hd : hasDer fs = false)
+    (s : St A C) (b : Contrib A C) (f : String) :
+    (updSt O fs s b).num f =
+      match numOf fs f with
+      | some (u, _, _) => O.op u (s.num f) (b.num f)
+      | none => s.num f := by
+  simp only [updSt, effDer_none_of hd f, updNum, adoptOf_none_of ha f]
+  rcases numOf fs f with _ | ⟨u, m, src⟩
+  · rfl
+  · simp only
+    split
+    · exact O.row_fold u _ _
+    · rfl
+
+theorem foldl_upd_num (fs : List FieldPlumb) (ha : hasAdopt fs = false) (hd : hasDer fs = false)
+    (l : List (Contrib A C)) (s : St A C) (f : String) :
     (l.foldl (updSt O fs) s).num f =
       match numOf fs f with
       | some (u, _, _) => l.foldl (fun a b => O.op u a (b.num f)) (s.num f)
@@ -256,8 +649,7 @@ theorem foldl_upd_num (fs : List FieldPlumb) (l : List (Contrib A C)) (s : St A 
   | nil => rcases numOf fs f with _ | ⟨u, m, src⟩ <;> rfl
   | cons b l ih =>
     simp only [List.foldl_cons]
-    rw [ih]
-    simp only [updSt]
+    rw [ih, updSt_num_basic O fs ha hd]
     rcases numOf fs f with _ | ⟨u, m, src⟩ <;> rfl
 
 theorem foldl_upd_lst (fs : List FieldPlumb) (l : List (Contrib A C)) (s : St A C) (f : String) :
@@ -294,5 +686,113 @@ theorem foldl_op_perm (o : NOp) (φ : Contrib A C → A) {l l' : List (Contrib A
   apply hp.foldl_eq'
   intro a _ b _ z
   rw [O.assoc, O.assoc, O.comm o (φ a)]
+
+theorem canon_num_perm (fs : List FieldPlumb) {l l' : List (Contrib A C)} (hp : l.Perm l') :
+    (canon O fs l).num = (canon O fs l').num := by
+  funext f
+  simp only [canon]
+  rcases numOf fs f with _ | ⟨u, m, src⟩
+  · rfl
+  · exact foldl_op_perm O u (fun b => b.num f) hp _
+
+theorem Coh.perm {l l' : List (Contrib A C)} (hp : l.Perm l') (h : Coh O l) : Coh O l' :=
+  h.sub O fun _ hx => hp.mem_iff.mpr hx
+
+/-! ## joint accumulators (`welford` rows) -/
+
+/-- every reachable state of a joint accumulator represents the live batches, for any representation relation the
+    combine respects (Covariance: `TE.AggL.CovR`, by the Chan combine identity `chan_combine_batches`). -/
+theorem welford_refines {B J : Type} (W : JOps J) (stat : B → J) (g : J → Except Err R) (Rep : J → List B → Prop)
+    (h0 : Rep W.e [])
+    (hu : ∀ s l b, Rep s l → Rep (W.comb s (stat b)) (l ++ [b]))
+    (hm : ∀ s l t lt, Rep s l → Rep t lt → Rep (W.comb s t) (l ++ lt)) :
+    ∀ (h : Hist B) (s : J), eval (welfordImpl W stat g) h = .ok s → Rep s (flatten h) := by
+  apply refines_rel (welfordImpl W stat g) Rep h0
+  · intro s l b s' hs hupd
+    simp only [welfordImpl, Except.ok.injEq] at hupd
+    subst hupd
+    exact hu s l b hs
+  · intro s l ss ls s' hs hss hmrg
+    simp only [welfordImpl, Except.ok.injEq] at hmrg
+    subst hmrg
+    clear h0 hu
+    induction hss generalizing s l with
+    | nil => simpa using hs
+    | cons h₁ _ ih =>
+      simp only [List.foldl_cons, ← List.append_assoc]
+      exact ih _ _ (hm _ _ _ _ hs h₁)
+
+/-! ## per-query retained lists (`topk` rows) -/
+
+section topk
+variable {Cq M : Type} (T : TOps Cq M)
+
+/-- the pairs of query `i` in the live batches, concatenated in order. -/
+def liveQ (l : List (Nat → Option Cq)) (i : Nat) : Cq :=
+  l.foldl (fun a b => match b i with | some x => T.cat2 a x | none => a) T.empty
+
+theorem liveQ_init (l : List (Nat → Option Cq)) (i : Nat) (x : Cq) :
+    l.foldl (fun a b => match b i with | some y => T.cat2 a y | none => a) x = T.cat2 x (liveQ T l i) := by
+  induction l generalizing x with
+  | nil => simp [liveQ, T.empty_right]
+  | cons b l ih =>
+    simp only [liveQ, List.foldl_cons]
+    rcases hb : b i with _ | y
+    · simpa [liveQ] using ih x
+    · simp only
+      rw [ih (T.cat2 x y), ih (T.cat2 T.empty y), T.empty_left, T.assoc]
+
+theorem liveQ_append (l l' : List (Nat → Option Cq)) (i : Nat) :
+    liveQ T (l ++ l') i = T.cat2 (liveQ T l i) (liveQ T l' i) := by
+  simp only [liveQ, List.foldl_append]
+  exact liveQ_init T l' i _
+
+/-- the top-k selection does not change what compute() depends on — true for `k = None` (the selection is a
+    sort), false for an integer `k` (pairs are dropped). -/
+def SelNeutral : Prop := ∀ c, T.obs (T.sel c) = T.obs c
+
+/-- the state represents the live batches, up to what compute() depends on. -/
+def RepQ (s : Nat → Cq) (l : List (Nat → Option Cq)) : Prop := ∀ i, T.obs (s i) = T.obs (liveQ T l i)
+
+theorem topk_refines (P : ClassPlumb) (g : (Nat → Cq) → Except Err R) (hsel : SelNeutral T) :
+    ∀ (h : Hist (Nat → Option Cq)) (s : Nat → Cq), eval (topkImpl T P g) h = .ok s → RepQ T s (flatten h) := by
+  apply refines_rel (topkImpl T P g) (RepQ T)
+  · intro i; rfl
+  · intro s l b s' hs hupd i
+    simp only [topkImpl, Except.ok.injEq] at hupd
+    subst hupd
+    rw [liveQ_append]
+    rcases hbi : b i with _ | x
+    · have hb : liveQ T [b] i = T.empty := by simp [liveQ, hbi]
+      simp only [hbi, hb, T.empty_right]
+      exact hs i
+    · have hb : liveQ T [b] i = x := by simp [liveQ, hbi, T.empty_left]
+      simp only [hbi, hb]
+      have := T.obs_cat (s i) (liveQ T l i) x x (hs i) rfl
+      split
+      · rw [hsel]; exact this
+      · exact this
+  · intro s l ss ls s' hs hss hmrg i
+    simp only [topkImpl, Except.ok.injEq] at hmrg
+    subst hmrg
+    have key : ∀ (ss : List (Nat → Cq)) (ls : List (Nat → Option Cq)), RelL (RepQ T) ss ls → ∀ (a : Cq) (l : List (Nat → Option Cq)),
+        T.obs a = T.obs (liveQ T l i) →
+        T.obs (ss.foldl (fun a t => T.cat2 a (t i)) a) = T.obs (liveQ T (l ++ ls) i) := by
+      intro ss ls hss
+      induction hss with
+      | nil => intro a l ha; simpa using ha
+      | @cons s₁ l₁ ss' ls' h₁ _ ih =>
+        intro a l ha
+        simp only [List.foldl_cons, ← List.append_assoc]
+        apply ih
+        rw [liveQ_append]
+        exact T.obs_cat _ _ _ _ ha (h₁ i)
+    have := key ss ls hss (s i) l (hs i)
+    simp only
+    split
+    · rw [hsel]; exact this
+    · exact this
+
+end topk
 
 end TE.Plumb
